@@ -33,9 +33,11 @@ def coincident (sp : Space) (i : Nat) : Nat :=
 /-- ≥ k+1 other samples coincide with sample `i` -/
 def altAdmissible (sp : Space) (k i : Nat) : Bool := decide (k + 1 ≤ coincident sp i)
 
-def modelLists (sp : Space) (method : String) (k : Nat) (vs : List Nat) : List (List Nat) :=
+def modelLists (sp : Space) (method : String) (k : Nat) (vs : List Nat) (metric : String) : List (List Nat) :=
   let pts := List.range sp.N
-  if method == "vptree" then
+  -- metric=L2 is represented by squared distances, which are not a metric: the VP-tree model is not run there
+  -- (the brute-force model, which needs no triangle inequality, stands in: `three_methods_agree`)
+  if method == "vptree" && metric != "L2" then
     let cb : Cb Nat Int := ⟨sp.dist, sp.lt⟩
     let t := (build cb vs (sp.N + 1) 0 pts).1
     pts.map fun i => vpKnn cb popMaxFirst t k i
@@ -91,7 +93,7 @@ def answer (line : String) : String :=
         s!"model={showObs mlists} alt= impl={showObs ids} oracle={oracle} corr={wrap} wrap={wrap} cq={cq} queries={cover} ties={ties}"
       | _, _ => "model=- alt= no-impl"
     else
-      let ml := modelLists sp method k vs
+      let ml := modelLists sp method k vs ((field? fs "metric").getD "")
       let alt := pts.filter fun i => altAdmissible sp k i
       let head := s!"model={showObs ml} alt=" ++ String.intercalate "," (alt.map toString)
       -- the model itself must satisfy the specification wherever the second outcome is impossible
